@@ -321,7 +321,17 @@ impl Number {
             Number::BigInt(lhs) => lhs.pow(exp).into(),
             Number::Rational(num) => {
                 if exp.to_i32().is_some() {
-                    num.pow(exp as i32).into()
+                    // Ratio<i32>::pow overflows: take the power in arbitrary precision
+                    let big = BigRational::new(BigInt::from(*num.numer()), BigInt::from(*num.denom()))
+                        .pow(exp as i32);
+                    match (big.numer().to_i32(), big.denom().to_i32()) {
+                        (Some(numer), Some(denom)) => Rational32::new_raw(numer, denom).into(),
+                        _ if big.is_integer() => match big.numer().to_i64() {
+                            Some(integer) => integer.into(),
+                            None => big.to_integer().into(),
+                        },
+                        _ => big.to_f64().unwrap_or(f64::NAN).into(),
+                    }
                 } else {
                     num.to_f64().unwrap_or(f64::NAN).powf(exp as f64).into()
                 }
